@@ -198,6 +198,7 @@ class Val:
 
 
 TOP = Val.top()
+PARTS = 4
 
 BIT_METHODS = {
     "bitor": "or", "union": "or", "bitand": "and", "intersection": "and", "not": "not",
@@ -234,13 +235,14 @@ class Bits:
     """Forward dataflow over flag-typed places of one body. State keys are (local, fieldpath);
     cond facts live under keys ('cond', local) and and-facts under ('and', local)."""
 
-    def __init__(self, body, entry=None, param_src=True):
+    def __init__(self, body, entry=None, param_src=True, parts=None):
         self.body = body
         self.cfg = cfg_of(body)
         self.du = defuse(body)
         self.entry = entry
         self.param_src = param_src
         self.infeasible_edges = []
+        self.parts = parts or PARTS
         self._collect_refs()
         self._run()
 
@@ -255,6 +257,11 @@ class Bits:
                     ndefs[s.lhs.local] = ndefs.get(s.lhs.local, 0) + 1
                     if s.rv["k"] in ("ref", "rawptr"):
                         cand[s.lhs.local] = Place(s.rv["p"])
+                    elif s.rv["k"] == "use" and self.body.local_tys[s.lhs.local].startswith(("&", "*const", "*mut")):
+                        # a reference passed on by value (argument of an inlined helper) still points to the same place
+                        op = Operand(s.rv["a"])
+                        if op.place is not None and op.place.is_local:
+                            cand.setdefault(("cast", s.lhs.local), op.place.local)
                     elif s.rv["k"] == "cast" and "a" in s.rv:
                         # pointer casts of references keep the target (e.g. &how as *const OpenHow)
                         op = Operand(s.rv["a"])
@@ -692,11 +699,36 @@ class Bits:
                 init[k] = v
         return init
 
+    @staticmethod
+    def _join_states(cur, o2):
+        new = {}
+        for k in set(cur) | set(o2):
+            a, b = cur.get(k), o2.get(k)
+            if isinstance(k[0], str):
+                if a == b and a is not None:
+                    new[k] = a
+                continue
+            if a is None or b is None:
+                new[k] = TOP
+            else:
+                new[k] = a.join(b)
+        return new
+
+    @staticmethod
+    def _distance(a, b):
+        return sum(1 for k in set(a) | set(b) if isinstance(k[0], int) and a.get(k) != b.get(k))
+
     def _run(self):
+        """Forward fixpoint with bounded trace partitioning: every block keeps up to PARTS separate states (one per
+        group of incoming paths) instead of one joined state, so that facts about different variables established on
+        the same path stay correlated (`forced = if path { A } else { B }` together with the refinement of the tested
+        variable).  self.IN[bb] is the join of the partitions (what the queries and older callers read)."""
         body = self.body
         n = len(body.blocks)
+        self.PIN = [None] * n
         self.IN = [None] * n
-        self.IN[0] = self._init_state()
+        self.PIN[0] = [self._init_state()]
+        self.IN[0] = dict(self.PIN[0][0])
         work = [0]
         it = 0
         while work:
@@ -704,46 +736,59 @@ class Bits:
             if it > 50000:
                 break
             bb = work.pop()
-            out = self.transfer(bb, self.IN[bb])
-            for e in self.cfg.succ.get(bb, []):
-                o2 = self.refine(bb, e, out)
-                if o2 is None:
-                    continue
-                d = e.dst
-                if self.IN[d] is None:
-                    self.IN[d] = dict(o2)
-                    work.append(d)
-                else:
-                    cur = self.IN[d]
-                    new = {}
-                    for k in set(cur) | set(o2):
-                        a, b = cur.get(k), o2.get(k)
-                        if isinstance(k[0], str):
-                            if a == b and a is not None:
-                                new[k] = a
-                            continue
-                        if a is None or b is None:
-                            new[k] = TOP
-                        else:
-                            new[k] = a.join(b)
-                    if new != cur:
-                        self.IN[d] = new
+            for st_in in list(self.PIN[bb]):
+                out = self.transfer(bb, st_in)
+                for e in self.cfg.succ.get(bb, []):
+                    o2 = self.refine(bb, e, out)
+                    if o2 is None:
+                        continue
+                    d = e.dst
+                    parts = self.PIN[d]
+                    if parts is None:
+                        self.PIN[d] = [dict(o2)]
+                        self.IN[d] = dict(o2)
+                        work.append(d)
+                        continue
+                    # subsumed by an existing partition?
+                    if any(self._join_states(p_, o2) == p_ for p_ in parts):
+                        continue
+                    if len(parts) < self.parts:
+                        parts.append(dict(o2))
+                    else:
+                        best = min(range(len(parts)), key=lambda i_: self._distance(parts[i_], o2))
+                        parts[best] = self._join_states(parts[best], o2)
+                    self.IN[d] = self._join_states(self.IN[d], o2)
+                    if d not in work:
                         work.append(d)
 
     def reachable(self, bb):
         return self.IN[bb] is not None
 
     def at_call(self, term):
-        st_in = self.IN[term.bb]
-        if st_in is None:
+        sts = self.at_call_parts(term)
+        if not sts:
             return None
-        captured = {}
+        st = sts[0]
+        for o in sts[1:]:
+            st = self._join_states(st, o)
+        return st
 
-        def sink(bb, t, st):
-            captured["st"] = dict(st)
+    def at_call_parts(self, term):
+        """The states (one per partition) in which the call terminator of its block executes."""
+        parts = self.PIN[term.bb]
+        if parts is None:
+            return None
+        res = []
+        for st_in in parts:
+            captured = {}
 
-        self.transfer(term.bb, st_in, sink)
-        return captured.get("st")
+            def sink(bb, t, st):
+                captured["st"] = dict(st)
+
+            self.transfer(term.bb, st_in, sink)
+            if "st" in captured:
+                res.append(captured["st"])
+        return res
 
     def at_stmt(self, bb, idx):
         """State before statement idx of block bb."""
@@ -766,18 +811,23 @@ class Bits:
         return st
 
     def arg_value(self, term, i, fields=()):
-        st = self.at_call(term)
-        if st is None:
+        sts = self.at_call_parts(term)
+        if not sts:
             return None
         op = term.args[i]
         if op.kind == "const":
             v = op.int_value()
             return Val.const(v) if v is not None else TOP
-        if fields:
-            base = self.base_key(op)
-            v = self._lookup(st, (base[0], base[1] + tuple(fields)))
-            return v if v is not None else TOP
-        return self.val_self(st, op)
+        res = None
+        for st in sts:
+            if fields:
+                base = self.base_key(op)
+                v = self._lookup(st, (base[0], base[1] + tuple(fields)))
+                v = v if v is not None else TOP
+            else:
+                v = self.val_self(st, op)
+            res = v if res is None else res.join(v)
+        return res
 
     def arg_struct(self, term, i):
         """{field path: Val} for a struct argument passed by value or reference."""
@@ -803,6 +853,7 @@ class FlagIPA:
         self.skip = skip or (lambda b: False)
         self.entry = {}
         self.bits = {}
+        self.fast = {}
         self.public = set()
         self._run()
 
@@ -861,8 +912,8 @@ class FlagIPA:
             ent = self.entry[b.path]
             if ent == "bottom":
                 continue
-            bits = Bits(b, entry=ent, param_src=(b.path in self.public))
-            self.bits[b.path] = bits
+            bits = Bits(b, entry=ent, param_src=(b.path in self.public), parts=1)   # fast, unpartitioned rounds
+            self.fast[b.path] = bits
             contrib = {}   # callee -> {key: Val}
             for blk in b.blocks:
                 if blk.cleanup or not bits.reachable(blk.idx):
@@ -933,6 +984,7 @@ class FlagIPA:
                 put((pkey[0], pkey[1] + kk[1][len(base[1]):]), vv)
 
     def bits_of(self, path):
+        """Partitioned analysis of one function under the entry state the whole-crate propagation converged to."""
         b = self.bits.get(path)
         if b is None:
             body = self.facts.body(path)
